@@ -11,7 +11,8 @@ import os
 import sys
 import tempfile
 
-from rv import core
+from rv import core, sched
+from rv.locks import wrap_all_locks
 
 PID = "C03"
 LEVEL = "exploration"
@@ -73,10 +74,62 @@ def plan(tier):
             "min_nontrivial": 20, "timeout": 600 if tier == "quick" else 2400,
             "require": {"forbidden_requests": 2000, "permitted_runs": 500, "entry:execute_tool_call": 300,
                         "entry:metabolize_auto": 300, "entry:metabolize_forced": 300, "entry:llm_loop": 300,
-                        "entry_points_discovered": 1}}
+                        "entry_points_discovered": 1, "register_function_calls": 300, "thread_schedules": 1000, "misspelled_requests": 1000}}
+
+
+def thread_case(ctx, n):
+    """A request for tool X races with re-registrations of X (permitted <-> forbidden) on the same engine, under the line-level
+    scheduler. Whatever the interleaving, the body of a tool whose requirements are outside the allowed set never runs."""
+    from operon_ai.core.types import Capability
+    from operon_ai.organelles.mitochondria import Mitochondria, MetabolicPathway, SimpleTool
+    from operon_ai.providers import ToolCall
+    sched.instrument(Mitochondria, SimpleTool)
+    rng = ctx.rng(n)
+    allowed = {Capability.READ_FS}
+    entry = rng.choice(["metabolize_forced", "metabolize_auto", "execute_tool_call"])
+    desc = {"threads": "request X || re-register X with a forbidden tool", "entry": entry}
+
+    def one(policy, label):
+        ran = []
+        good = SimpleTool(name="x", description="ok", func=lambda *a, **k: ran.append("good") or 1, required_capabilities={Capability.READ_FS})
+        bad = SimpleTool(name="x", description="bad", func=lambda *a, **k: ran.append("bad") or 2, required_capabilities={Capability.NET})
+        mito = Mitochondria(silent=True, allowed_capabilities=set(allowed), max_ros=1e9)
+        mito.engulf_tool(good)
+        wrap_all_locks(mito, sched.SchedLock, "mito")
+
+        def req():
+            if entry == "execute_tool_call":
+                return mito.execute_tool_call(ToolCall(id="c", name="x", arguments={})).success
+            return mito.metabolize("x(1 + 1, k=abs(-2))", MetabolicPathway.OXIDATIVE if entry == "metabolize_forced" else None).success
+
+        def rereg():
+            mito.engulf_tool(bad)
+            return None
+        sc = sched.Scheduler(policy, watchdog_s=30.0)
+        sc.run([req, rereg] + ([req] if rng.random() < 0.3 else []))
+        ctx.count("thread_schedules")
+        if sc.stuck:
+            ctx.inconclusive("a schedule hit the wall-clock watchdog (not a verdict)")
+            return sc
+        if "bad" in ran:
+            ctx.violation("forbidden-tool-ran:concurrent-reregistration",
+                          "a tool requiring NET ran (allowed = {READ_FS}) when its registration raced with a request for the same name via %s" % entry,
+                          dict(desc, policy=label, choices=sc.choices[:200], ran=ran))
+        if sc.switch_while_other_inside:
+            ctx.nontrivial(("threads", entry, sc.trace_hash()))
+        return sc
+    base = one(sched.PreemptionPolicy({}), "pb(0)")
+    N = max(base.step, 1)
+    for s_ in range(1, N + 1):
+        for t in range(2):
+            one(sched.PreemptionPolicy({s_: t}), "pb(1)@%d->%d" % (s_, t))
+    for i in range(40):
+        one(sched.RandomPolicy(rng, (0.2, 0.4, 0.6)[i % 3]), "random")
 
 
 def run_case(ctx, n):
+    if n % (700 if ctx.tier == "quick" else 10000) == 11:
+        return thread_case(ctx, n)
     from operon_ai.core.types import Capability
     from operon_ai.organelles.mitochondria import Mitochondria, MetabolicPathway, SimpleTool
     from operon_ai.organelles.nucleus import Nucleus
@@ -160,7 +213,15 @@ def run_case(ctx, n):
     def register(mito, spec):
         name, required, style, key, obj = spec
         if isinstance(obj, tuple):
-            mito.register_function(obj[1], obj[2], "d", required_capabilities=obj[3])
+            kw = {}
+            if rng.random() < 0.5:       # the other optional registration arguments must not disturb the declaration
+                kw["parameters_schema"] = {"type": "object", "properties": {"x": {"type": "integer"}}}
+            if rng.random() < 0.5:
+                kw["description"] = "tool %s" % name
+                mito.register_function(obj[1], obj[2], required_capabilities=obj[3], **kw)
+            else:
+                mito.register_function(obj[1], obj[2], "d", required_capabilities=obj[3], **kw)
+            ctx.count("register_function_calls")
         else:
             mito.engulf_tool(obj)
         tools_model[name] = (key, required, style)
